@@ -105,7 +105,7 @@ func sameKind(a, b *Violation) bool {
 func (j *judge) minimise(nodes map[string]*node, v Violation) Violation {
 	reproduce := func(group []*ReqPlan) *Violation {
 		j2 := &judge{proj: j.proj, routes: j.routes, tag: j.tag, stats: newStats()}
-		if v.Class != "not-served" && v.Class != "misrouted" {
+		if v.Class != "not-served" && v.Class != "misrouted" && v.Class != "wrong-method" {
 			j2.broken = j.broken
 		}
 		j2.execGroup(nodes, group, v.SchedSeed)
@@ -243,6 +243,9 @@ func finalSignature(v *Violation) string {
 		} else {
 			parts = append(parts, focus.Class)
 		}
+	case v.Property == "C02" && (v.Class == "not-served" || v.Class == "misrouted" || v.Class == "wrong-method"):
+		// a dispatch finding is about the route, not about what the request carried
+		parts = append(parts, "route:"+shapeTags(focus))
 	default:
 		parts = append(parts, cause(focus))
 		if v.Property == "C02" {
